@@ -62,7 +62,7 @@ type hInstance08 struct {
 // notification before it decides stays silent.
 //
 //vf:quick unwind=16 decisions=400 goroutines=12 preempt=0 paths=400000
-//vf:thorough unwind=16 decisions=600 goroutines=16 preempt=1 paths=4000000
+//vf:thorough unwind=16 decisions=600 goroutines=16 preempt=0 paths=4000000
 //vf:expect reach=single-sender reach=duplicate-under-loss reach=crash-covered
 func VerifC08_Cluster() {
 	n := 2 // (a third instance multiplies loss/delay/crash patterns beyond what a run can finish; the thorough tier deepens the schedule and hold choices instead)
